@@ -29,6 +29,10 @@ func ioErrCode(e error) int {
 		return 52
 	case bufio.ErrInvalidUnreadByte:
 		return 53
+	case bufio.ErrBufferFull:
+		return 54
+	case io.ErrNoProgress:
+		return 55
 	case errReader:
 		return 60
 	case errWriter:
@@ -109,6 +113,22 @@ func init() {
 		return VL(VI(0), obs)
 	})
 
+	// io.syncb <script> <bufio size>: the real Sync over the real bufio.Reader over the scripted reader
+	register("io.syncb", func(a []Val) Val {
+		sr := &scriptReader{}
+		for _, e := range a[0].L {
+			sr.chunks = append(sr.chunks, append([]byte{}, e.L[0].B...))
+			sr.errs = append(sr.errs, codeErr(e.L[1].Int()))
+		}
+		r := bufio.NewReaderSize(sr, a[1].Int())
+		off, err := packet.Sync(r)
+		av, _ := r.Peek(16)
+		obs := VL(VI(off), VB(av))
+		if err != nil {
+			return VL(VI(1), VI(int64(ioErrCode(err))), obs)
+		}
+		return VL(VI(0), obs)
+	})
 	// pw.write <p> <k> <mfail> <mok> <adapter>
 	register("pw.write", func(a []Val) Val {
 		p := append([]byte{}, a[0].B...)
